@@ -131,6 +131,18 @@ Theorem C13_inner_edges : forall (t : tree XQ) (p : list nat) (u r : layout XQ),
      xeq (sub (add ry (size_height r)) (padding_bottom r)) (fround (sub (add ay (size_height u)) (padding_bottom u)))).
 Proof. exact inner_edges_thm. Qed.
 
+(* Without any premise on the ancestors, and for every Num instance (binary32 included): a reported size is the difference
+   of the two rounded absolute edges -- "always round based on the cumulative x/y coordinates (relative to the viewport)
+   rather than parent-relative coordinates" -- and a reported location is the rounded parent-relative location *)
+Theorem C13_size_from_absolute_edges : forall (T : Type) (N : Num T) (t : tree T) (p : list nat) (u r : layout T),
+  node_at t p = Some u -> node_at (round_layout t) p = Some r ->
+  let ax := add (sum_x (ancestors t p)) (location_x u) in
+  let ay := add (sum_y (ancestors t p)) (location_y u) in
+  size_width r = sub (fround (add ax (size_width u))) (fround ax) /\
+  size_height r = sub (fround (add ay (size_height u))) (fround ay) /\
+  location_x r = fround (location_x u) /\ location_y r = fround (location_y u).
+Proof. intros T N. exact size_from_absolute_edges. Qed.
+
 (* no seam: two boxes anywhere in the tree (under integral ancestors, near edges off half pixels) whose edges coincide
    before rounding -- far edge of box 1 = near edge of box 2 -- have coinciding edges afterwards: no gap, no overlap *)
 Theorem C13_no_seam : forall (t : tree XQ) p1 u1 r1 p2 u2 r2,
@@ -210,6 +222,7 @@ Print Assumptions C13_no_drift_from_new.
 Print Assumptions C13_edges.
 Print Assumptions C13_edges_nonneg.
 Print Assumptions C13_inner_edges.
+Print Assumptions C13_size_from_absolute_edges.
 Print Assumptions C13_no_seam.
 Print Assumptions C13_no_overlap.
 Print Assumptions C13_half_pixel_premise_needed.
